@@ -324,7 +324,7 @@ func genWin(t *rapid.T, label string, C int) Win {
 func GenVal(t *rapid.T, ti kit.TypeInfo, allowNaN bool) kit.Val {
 	if ti.Kind == kit.Float {
 		if allowNaN && rapid.IntRange(0, 15).Draw(t, "nanSel") == 0 {
-			return kit.FV(math.NaN())
+			return kit.FV(rapid.SampledFrom(kit.NaNs).Draw(t, "nan")) // quiet and signalling, payload in high or low bits
 		}
 		b := bFloat64
 		if ti.Bits == 32 {
